@@ -825,6 +825,40 @@ func (w *worker) report(l *core.Local, f *family, hc hcase, offers []string) {
 				try(k, elem{e.T, strings.ReplaceAll(e.P, `"`, ""), e.Q})
 			}
 		}
+		// a quoted value that cannot be written as a token: rename the parameter to p=1 in
+		// the range and in every offer that carries it
+		for k := range hc.el {
+			e := hc.el[k]
+			if !strings.Contains(e.P, `"`) {
+				continue
+			}
+			no := append([]string(nil), offers...)
+			for j := range no {
+				no[j] = strings.ReplaceAll(no[j], e.P, ";p=1")
+			}
+			hc.el[k] = elem{e.T, ";p=1", e.Q}
+			if still(hc, no) {
+				changed = true
+				offers = no
+			} else {
+				hc.el[k] = e
+			}
+		}
+		// ranges that the earlier steps made superfluous
+		for k := 0; k < len(hc.el) && len(hc.el) > 1; k++ {
+			ne := append(append([]elem(nil), hc.el[:k]...), hc.el[k+1:]...)
+			g := k
+			if g == len(hc.seps) {
+				g--
+			}
+			ns := append(append([]string(nil), hc.seps[:g]...), hc.seps[g+1:]...)
+			cand := hcase{el: ne, seps: ns, sep: hc.sep, present: true}
+			if still(cand, offers) {
+				hc = cand
+				changed = true
+				k--
+			}
+		}
 		for g := range hc.seps {
 			if hc.seps[g] == "," {
 				continue
@@ -1373,6 +1407,10 @@ func totality(r *core.Run, fams []*family, maxLen int) {
 	S := len(hostile)
 	// work items: first two symbols (S*S), plus the strings shorter than 2
 	r.Parallel(S*S+S+1, func(it int, l *core.Local) {
+		if r.Expired() {
+			r.Cap("wall-clock budget exhausted in phase totality")
+			return
+		}
 		w := workers.get()
 		defer workers.put(w)
 		for _, f := range fams {
@@ -1443,6 +1481,17 @@ func main() {
 	tokAlpha := product(tokens, []string{""}, tokenQ)
 	bounds := map[string]any{}
 
+	// Default wall-clock budgets keep the tier limits on a busy machine (sized for about
+	// 10 s / 5 min on 16 idle cores); phases run cheapest first, so a cap (exhaustive:false)
+	// cuts the tail of the biggest product only. -budget overrides.
+	if r.Deadline.IsZero() {
+		if quick {
+			r.Deadline = r.Start.Add(58 * time.Second)
+		} else {
+			r.Deadline = r.Start.Add(14*time.Minute + 30*time.Second)
+		}
+	}
+
 	// 1. pool recycling: alone in a GOMAXPROCS=1 worker process (sequential, so that the
 	// sync.Pool hands the recycled map straight back and GC flushes are cheap); it runs
 	// concurrently with the parallel phases of this process.
@@ -1462,57 +1511,44 @@ func main() {
 		}
 		poolDone <- r.SpawnWorkers(1, []string{"GOMAXPROCS=1"})
 	}()
+	bounds["pool"] = "all ordered pairs of a 40-header sub-alphabet (Accepts->Accepts) and 40x10 (Accepts->AcceptsLanguages), back-to-back on one app, per offer list (quick: lists of <=2 offers)"
 
-	// 2. media ranges
-	otherSeps := separators[1:]
-	a16 := product([]string{"*/*", "text/*", "text/html", "text/plain"}, []string{""}, []string{"", ";q=0.5", ";q=0"})
-	a16 = append(a16, elem{"text/html", ";level=1", ""}, elem{"text/html", ";level=1", ";q=0.5"}, elem{"text/html", "", "; q=0.5"}, elem{"text/html", "", ";Q=0.5"})
-	if quick {
-		enumerate(r, "media", famA, a60, 1, 2, separators)
-		enumerate(r, "media", famA2, a60, 3, 3, separators[:1])
-		enumerate(r, "media_sep", famA2, a16, 3, 3, otherSeps)
-		bounds["media"] = fmt.Sprintf("Accept: <=2 ranges over the 60-range alphabet x 3 separators x all ordered lists of <=3 of 11 offers; 3 ranges over the same alphabet joined by ',' "+
-			"(and over a %d-range sub-alphabet joined by ', ' and ' , ') x ordered lists of <=2 offers", len(a16))
-	} else {
-		enumerate(r, "media", famA, a60, 1, 3, separators[:1])
-		enumerate(r, "media_sep", famA, a60, 2, 3, otherSeps)
-		enumerate(r, "media240", famA, a240, 1, 2, separators)
-		enumerate(r, "media240", famA2, a240, 3, 3, separators[:1])
-		a4 := product(mediaTypes[:5], []string{"", ";level=1"}, []string{"", ";q=0.5", ";q=0"})
-		a4 = append(a4, elem{"a/b", ";a=1;b=2", ""}, elem{"text/html", "", "; q=0.5"}, elem{"*/*", "", ";q=0.123"})
-		enumerate(r, "media4", famA, a4, 4, 4, separators[:1])
-		bounds["media"] = fmt.Sprintf("Accept: <=3 ranges over the 60-range alphabet x 3 separators x all ordered lists of <=3 of 11 offers; <=2 ranges over the full 240-range alphabet "+
-			"(6 types x 5 parameter forms x 8 q-forms) x 3 separators x the same lists; exactly 3 ranges over the 240-range alphabet joined by ',' x ordered lists of <=2 offers; "+
-			"exactly 4 ranges over a %d-range alphabet joined by ',' x lists of <=3 offers", len(a4))
+	// 2. absent header for every function; Format / AutoFormat
+	fn := 2
+	if !quick {
+		fn = 3
 	}
+	if !skip("format") {
+		w := workers.get()
+		l := core.NewLocal()
+		for _, f := range []*family{famA, famL, famC, famE, famF, famAuto} {
+			st := &stats{f: f, tag: "absent"}
+			w.judge(l, f, hcase{present: false}, st)
+			st.flush(l)
+		}
+		r.Merge(l.P)
+		workers.put(w)
+	}
+	enumerate(r, "format", famF, a60, 1, fn, separators)
+	enumerate(r, "autoformat", famAuto, a60, 1, fn, separators)
+	bounds["format"] = fmt.Sprintf("Format: <=%d ranges over the 60-range alphabet x 3 separators x ordered handler lists of <=3 of %v; AutoFormat over the same headers; absent header for every function", fn, formatTypes)
+	phase("format")
 
+	// 3. totality
+	tl := 4
+	if !quick {
+		tl = 5
+	}
+	totality(r, []*family{famA2, famL2, famC2, famE2, famF, famAuto}, tl)
+	bounds["totality"] = fmt.Sprintf("all strings of <=%d symbols over %q as header value, x ordered lists of <=2 offers (Format: <=3 handlers)", tl, hostile)
+	phase("totality")
+
+	// 4. rare list syntax
 	enumerate(r, "media_rare_sep", famA, a60, 2, 2, rareSeparators)
 	enumerate(r, "tokens_rare_sep", famL, tokAlpha, 2, 2, rareSeparators)
 	bounds["rare_separators"] = "Accept (60-range alphabet) and Accept-Language (49-range alphabet): 2 ranges joined by ',<HTAB>' and ',,' x ordered lists of <=3 offers"
 
-	phase("media")
-
-	// 3. token headers
-	t14 := product(tokens, []string{""}, []string{"", ";q=0.5"})
-	t4 := product(tokens, []string{""}, []string{"", ";q=0.5", ";q=0", "; q=0.5"})
-	if quick {
-		enumerate(r, "tokens", famL, tokAlpha, 1, 2, separators)
-		enumerate(r, "tokens", famL2, tokAlpha, 3, 3, separators[:1])
-		enumerate(r, "tokens_sep", famL2, t14, 3, 3, otherSeps)
-		enumerate(r, "tokens", famC2, tokAlpha, 1, 2, separators)
-		enumerate(r, "tokens", famE2, tokAlpha, 1, 2, separators)
-		bounds["tokens"] = "Accept-Language: <=2 ranges over 7 tokens x 7 q-forms x 3 separators x ordered lists of <=3 of 7 tokens, 3 ranges joined by ',' (and over 7 tokens x 2 q-forms joined by ', ' and ' , ') x lists of <=2; Accept-Charset/-Encoding: <=2 ranges x 3 separators x lists of <=2"
-	} else {
-		for _, f := range []*family{famL, famC, famE} {
-			enumerate(r, "tokens", f, tokAlpha, 1, 3, separators)
-		}
-		enumerate(r, "tokens4", famL, t4, 4, 4, separators[:1])
-		bounds["tokens"] = "Accept-Language/-Charset/-Encoding: <=3 ranges over 7 tokens x 7 q-forms x 3 separators x ordered lists of <=3 of 7 tokens; Accept-Language additionally exactly 4 ranges over 7 tokens x 4 q-forms"
-	}
-
-	phase("tokens")
-
-	// 3b. second call inside the same handler (getOffer writes into the header buffer)
+	// 5. second call inside the same handler (getOffer writes into the header buffer)
 	famA2r := mkFamily("Accepts(2nd call in one handler)", mAccepts, "Accept", true, mediaOffers, all2)
 	famA2r.repeat = true
 	famL2r := mkFamily("AcceptsLanguages(2nd call in one handler)", mLanguages, "Accept-Language", false, tokens, tok2)
@@ -1527,38 +1563,51 @@ func main() {
 	bounds["repeat"] = fmt.Sprintf("second of two identical calls in one handler: Accept <=%d ranges over the 60-range alphabet + 2 ranges with upper-case parameter names, Accept-Language <=%d ranges; x lists of <=2 offers", rn, rn)
 	phase("repeat")
 
-	// 4. Format / AutoFormat
-	fn := 2
-	if !quick {
-		fn = 3
-	}
-	enumerate(r, "format", famF, a60, 1, fn, separators)
-	enumerate(r, "autoformat", famAuto, a60, 1, fn, separators)
-	{
-		w := workers.get()
-		l := core.NewLocal()
-		for _, f := range []*family{famA, famL, famC, famE, famF, famAuto} {
-			st := &stats{f: f, tag: "absent"}
-			w.judge(l, f, hcase{present: false}, st)
-			st.flush(l)
+	// 6. token headers
+	otherSeps := separators[1:]
+	t14 := product(tokens, []string{""}, []string{"", ";q=0.5"})
+	t4 := product(tokens, []string{""}, []string{"", ";q=0.5", ";q=0", "; q=0.5"})
+	if quick {
+		enumerate(r, "tokens", famL, tokAlpha, 1, 2, separators)
+		enumerate(r, "tokens", famC2, tokAlpha, 1, 2, separators)
+		enumerate(r, "tokens", famE2, tokAlpha, 1, 2, separators)
+		enumerate(r, "tokens", famL2, tokAlpha, 3, 3, separators[:1])
+		enumerate(r, "tokens_sep", famL2, t14, 3, 3, otherSeps)
+		bounds["tokens"] = "Accept-Language: <=2 ranges over 7 tokens x 7 q-forms x 3 separators x ordered lists of <=3 of 7 tokens, 3 ranges joined by ',' (and over 7 tokens x 2 q-forms joined by ', ' and ' , ') x lists of <=2; Accept-Charset/-Encoding: <=2 ranges x 3 separators x lists of <=2"
+	} else {
+		for _, f := range []*family{famL, famC, famE} {
+			enumerate(r, "tokens", f, tokAlpha, 1, 3, separators)
 		}
-		r.Merge(l.P)
-		workers.put(w)
+		enumerate(r, "tokens4", famL, t4, 4, 4, separators[:1])
+		bounds["tokens"] = "Accept-Language/-Charset/-Encoding: <=3 ranges over 7 tokens x 7 q-forms x 3 separators x ordered lists of <=3 of 7 tokens; Accept-Language additionally exactly 4 ranges over 7 tokens x 4 q-forms"
 	}
-	bounds["format"] = fmt.Sprintf("Format: <=%d ranges over the 60-range alphabet x 3 separators x ordered handler lists of <=3 of %v; AutoFormat over the same headers; absent header for every function", fn, formatTypes)
+	phase("tokens")
 
-	phase("format")
-
-	// 5. totality
-	tl := 4
-	if !quick {
-		tl = 5
+	// 7. media ranges (the biggest products last)
+	a16 := product([]string{"*/*", "text/*", "text/html", "text/plain"}, []string{""}, []string{"", ";q=0.5", ";q=0"})
+	a16 = append(a16, elem{"text/html", ";level=1", ""}, elem{"text/html", ";level=1", ";q=0.5"}, elem{"text/html", "", "; q=0.5"}, elem{"text/html", "", ";Q=0.5"})
+	if quick {
+		enumerate(r, "media", famA, a60, 1, 2, separators)
+		enumerate(r, "media_sep", famA2, a16, 3, 3, otherSeps)
+		enumerate(r, "media", famA2, a60, 3, 3, separators[:1])
+		bounds["media"] = fmt.Sprintf("Accept: <=2 ranges over the 60-range alphabet x 3 separators x all ordered lists of <=3 of 11 offers; 3 ranges over the same alphabet joined by ',' "+
+			"(and over a %d-range sub-alphabet joined by ', ' and ' , ') x ordered lists of <=2 offers", len(a16))
+	} else {
+		a4 := product([]string{"*/*", "text/*", "text/html", "text/plain", "a/b"}, []string{"", ";level=1"}, []string{"", ";q=0.5", ";q=0"})
+		a4 = append(a4, elem{"a/b", ";a=1;b=2", ""}, elem{"a/b", ";a=1;b=2", ";q=0.5"}, elem{"text/html", "", "; q=0.5"}, elem{"*/*", "", ";q=0.123"},
+			elem{"text/html", "", ";Q=0.5"}, elem{"application/json", "", ""})
+		a144 := product(mediaTypes, []string{"", ";level=1", ";a=1;b=2", `;t="x,y"`}, []string{"", ";q=0.5", ";q=0.123", ";q=0", "; q=0.5", ";Q=0.5"})
+		enumerate(r, "media240", famA, a240, 1, 2, separators)
+		enumerate(r, "media", famA, a60, 1, 3, separators[:1])
+		enumerate(r, "media4", famA2, a4, 4, 4, separators[:1])
+		enumerate(r, "media144", famA2, a144, 3, 3, separators[:1])
+		enumerate(r, "media_sep", famA, a60, 2, 3, otherSeps)
+		bounds["media"] = fmt.Sprintf("Accept: <=3 ranges over the 60-range alphabet x 3 separators x all ordered lists of <=3 of 11 offers; <=2 ranges over the full 240-range alphabet "+
+			"(6 types x 5 parameter forms x 8 q-forms) x 3 separators x the same lists; exactly 3 ranges over a %d-range alphabet (6 types x 4 parameter forms x 6 q-forms) and exactly 4 ranges "+
+			"over a %d-range alphabet, joined by ',', x ordered lists of <=2 offers", len(a144), len(a4))
 	}
-	totality(r, []*family{famA2, famL2, famC2, famE2, famF, famAuto}, tl)
-	bounds["totality"] = fmt.Sprintf("all strings of <=%d symbols over %q as header value, x ordered lists of <=2 offers (Format: <=3 handlers)", tl, hostile)
-	bounds["pool"] = "all ordered pairs of a 40-header sub-alphabet (Accepts->Accepts) and 40x10 (Accepts->AcceptsLanguages), back-to-back on one app, per offer list"
+	phase("media")
 
-	phase("totality")
 	if crashed := <-poolDone; len(crashed) > 0 {
 		core.Fatal("C09 pool worker failed: %v", crashed)
 	}
@@ -1597,7 +1646,7 @@ func main() {
 			"reference model ref.go (RFC 9110 list/parameter grammar + the ordering of the statement) is correct; it is self-tested on hand-evaluated examples at start-up",
 			"fasthttp request/response objects behave as on a real connection for header storage (handler-level drive through app.Handler(), no wire parsing)",
 			"extension offers html/json/txt/png/xml stand for text/html, application/json, text/plain, image/png, application/xml (documentation)",
-			"pool phase runs first and alone on one goroutine so sync.Pool hands the recycled map back; its oracle does not depend on that",
+			"the pool phase runs alone in a GOMAXPROCS=1 worker process so that sync.Pool hands the recycled map back; its oracle (equality with the flushed-pool answer) does not depend on that",
 		},
 		MinOutcomes: 6,
 	})
